@@ -87,6 +87,36 @@ Theorems == LET S == Coef(x, y) IN
   /\ IsLine => \A j \in 0..(n-1) : S[j].c = I(0) /\ S[j].d = I(0) /\ S[j].b = Q(y[1] - y[0], H(x, 0))                   \* Linear
   /\ \A k \in 0..n : Area(x, y, 0, n) = Add(Area(x, y, 0, k), Area(x, y, k, n))                                        \* additive
   /\ Area(x, y, 0, n) = Integral(x, y, 0, n)                                                                           \* exact
+
+\* ---- further theorems of the property on the exact semantics (INPUT-CLASSES K3/K4 for the model: units, magnitudes, offsets)
+ScaleX(k) == [i \in 0..n |-> k * x[i]]
+Affine(a, b) == [i \in 0..n |-> a * y[i] + b]
+Mid(j) == Q(x[j] + x[j+1], 2)
+\* trapezoid between two rational points <<px, py>>, <<qx, qy>> and the polyline point of piece i at parameter u (0 < u < 1, rational)
+TrapQ(px, py, qx, qy) == Div(Mul(Sub(qx, px), Add(py, qy)), I(2))
+OnPiece(i, u) == <<Add(I(x[i]), Mul(u, I(H(x, i)))), Add(I(y[i]), Mul(u, I(y[i+1] - y[i])))>>
+Theorems2 == LET S == Coef(x, y) IN
+  \* the evaluation does not depend on the unit of x: knots k x_i, query k t  ->  the same value (k = 2, 3, 10)
+  /\ \A k \in {2, 3, 10} : LET Sk == Coef(ScaleX(k), y) IN
+        \A j \in 0..(n-1) : /\ Eval(Sk, ScaleX(k), j, Mul(I(k), Mid(j))) = Eval(S, x, j, Mid(j))
+                            /\ Eval(Sk, ScaleX(k), j, I(k * x[j+1])) = Eval(S, x, j, I(x[j+1]))
+  \* ordinates a y + b (another unit / a large offset): the spline is a S + b - b, c, d scale with a, the offset only enters a_j
+  /\ \A ab \in {<<-2, 0>>, <<3, 5>>, <<1, 1000>>} : LET Sa == Coef(x, Affine(ab[1], ab[2])) IN
+        \A j \in 0..(n-1) : /\ Sa[j].a = Add(Mul(I(ab[1]), S[j].a), I(ab[2])) /\ Sa[j].b = Mul(I(ab[1]), S[j].b)
+                            /\ Sa[j].c = Mul(I(ab[1]), S[j].c) /\ Sa[j].d = Mul(I(ab[1]), S[j].d)
+  \* the trapezoid area is additive over sub-ranges that split BETWEEN two vertices (the polyline point is inserted)
+  /\ \A i \in 0..(n-1) : \A u \in {Q(1, 2), Q(1, 3), Q(3, 4)} : LET P == OnPiece(i, u) IN
+        Add(TrapQ(I(x[i]), I(y[i]), P[1], P[2]), TrapQ(P[1], P[2], I(x[i+1]), I(y[i+1]))) = Q((x[i+1] - x[i]) * (y[i] + y[i+1]), 2)
+  \* C0: neighbouring pieces agree at the interior knots (the value there does not depend on which of the two pieces is used)
+  /\ \A j \in 0..(n-2) : Eval(S, x, j, I(x[j+1])) = S[j+1].a
+\* the same two laws with one instance each (5 knots: the full Theorems2 costs six more rational solves per state)
+Theorems2Lite == LET S == Coef(x, y)  S2 == Coef(ScaleX(2), y)  Sa == Coef(x, Affine(3, 5)) IN
+  /\ \A j \in 0..(n-1) : Eval(S2, ScaleX(2), j, Mul(I(2), Mid(j))) = Eval(S, x, j, Mid(j))
+  /\ \A j \in 0..(n-1) : /\ Sa[j].a = Add(Mul(I(3), S[j].a), I(5)) /\ Sa[j].b = Mul(I(3), S[j].b)
+                          /\ Sa[j].c = Mul(I(3), S[j].c) /\ Sa[j].d = Mul(I(3), S[j].d)
+  /\ \A j \in 0..(n-2) : Eval(S, x, j, I(x[j+1])) = S[j+1].a
+\* 5 knots on 0..7 (thorough tier): the two extra rational solves only for the knot sets inside 0..5 (a ninth of them)
+Theorems2LiteSmall == (x[n] <= 5) => Theorems2Lite
 LookupRight == \A k \in Scales : \A t2 \in EvalPts(x) : Chosen2(EOf(k), x, t2) \in PieceOf2(x, t2)
 
 \* ---- GEN: one record per knot set for the replay driver: exact values at knots and midpoints, allowed pieces, exact area
